@@ -14,6 +14,8 @@ mkdir -p /tmp/trial
 # the committed harness, not the working copy (which may be mid-edit)
 rm -rf /tmp/trial/src && mkdir -p /tmp/trial/src && git -C /verif archive HEAD harness | tar -x -C /tmp/trial/src && rsync -a --delete --exclude target --exclude miri/target /tmp/trial/src/harness/ /tmp/trial/harness/
 sed -i "s|/repo/oxidize-pdf-core|$WT/oxidize-pdf-core|" /tmp/trial/harness/Cargo.toml
+sed -i "s|/verif/harness/target|/tmp/trial/harness/target|" /tmp/trial/harness/.cargo/config.toml
+grep -q /tmp/trial/harness/target /tmp/trial/harness/.cargo/config.toml || { echo "trial harness would build into /verif"; exit 2; }
 [ -f /tmp/trial/harness/miri/Cargo.toml ] && sed -i "s|/repo/oxidize-pdf-core|$WT/oxidize-pdf-core|" /tmp/trial/harness/miri/Cargo.toml
 cd /verif
 VERIF_TRIAL=/tmp/verif-trial VERIF_HARNESS=/tmp/trial/harness ./check "$id" "$@" 2>&1 | grep -E "VIOLATION|SUMMARY|INCONCL|KNOWN|error" | sed 's/replay=[^ ]* //' | cut -c1-360 | head -8
